@@ -492,6 +492,40 @@ func C19(c *core.Ctx) {
 		c.Decide(len(eff) > 0 && g.OK && g.PassEdges > 0, "R19.2", "sweep-removes-only-unmarked", p.Pos(ru.Pos()), "only unmarked prefixes are withdrawn", "RemoveUnmarked can withdraw a prefix that was marked in this rebuild")
 	}
 
+	// ---- R19.14 the faces of the desired entries are looked up when they are asked for:
+	// every return of Rib.GetFibEntries lies behind the lookups of the next hops in the
+	// neighbour table made in this call. A neighbour can move to another face without any
+	// change of the RIB (same advertisement heard on a new face), so face ids remembered
+	// from an earlier call are stale although no routing-table entry changed.
+	if gf := c.Fn("R19.14", "dv/table", "Rib", "GetFibEntries"); gf != nil {
+		var looks []ssa.Instruction
+		core.Instrs(gf, func(in ssa.Instruction) {
+			if _, ok := core.IsCall(in, core.CalleeID{Pkg: "dv/table", Recv: "NeighborTable", Name: "GetH"}, core.CalleeID{Pkg: "dv/table", Recv: "NeighborTable", Name: "Get"}); ok {
+				looks = append(looks, in)
+			}
+		})
+		stale := ""
+		nRet := 0
+		core.Instrs(gf, func(in ssa.Instruction) {
+			r, isR := in.(*ssa.Return)
+			if !isR || in.Block() == gf.Recover || len(r.Results) == 0 || core.IsNilConst(core.Strip(r.Results[0])) {
+				return
+			}
+			nRet++
+			if !core.Precedes(gf, r, func(x ssa.Instruction) bool {
+				for _, l := range looks {
+					if x == l {
+						return true
+					}
+				}
+				return false
+			}) {
+				stale = c.Pos(r)
+			}
+		})
+		c.Decide(stale == "" && len(looks) > 0, "R19.14", "next-hop-faces-looked-up-per-call", p.Pos(gf.Pos()), fmt.Sprintf("%d return(s), each behind a lookup in the neighbour table", nRet), "Rib.GetFibEntries can return entries without looking the next hops up in the neighbour table (return at "+stale+"): the face ids are those of an earlier call — when a neighbour moves to another face with an unchanged advertisement its routes stay on the old face and none is registered on the new one")
+		c.Floor("R19.14", "lookups of a next hop's face in GetFibEntries", len(looks), 1)
+	}
 	// ---- R19.12 the sweep forgets what it withdraws: when RemoveUnmarked itself drops the
 	// name of an unmarked prefix (instead of leaving that to UpdateH, which stores the
 	// resulting entries back or deletes them), it also drops the recorded entries of that
